@@ -32,8 +32,11 @@ class M(A, B):
 
 
 class U:
+    def __init__(self, n=0):
+        self.n = n
+
     def __repr__(self):
-        return 'REPR_U'
+        return 'REPR_U' if self.n == 0 else 'REPR_U%d' % self.n
 
 
 CLASSES = [G, P, C, A, B, M, U]
